@@ -158,10 +158,6 @@ fn do_validate<'a>(
     // Every file starts with a clean slate. Otherwise the assertions, and
     // the failures, of the files tested before it would count against it.
     env.borrow_mut().assert_results = ucglib::build::AssertCollector::new();
-    // An imported file is evaluated once per tested file, not once per
-    // invocation. Otherwise the assertions of a helper file would only count
-    // for the first test file that imports it.
-    env.borrow_mut().val_cache.clear();
     match build_file(file, true, strict, import_paths, env) {
         Ok(b) => {
             if b.assert_results() {
